@@ -330,6 +330,9 @@ def loopback_ip(k=7):
     pid = os.getpid(); return "127.%d.%d.%d" % ((pid >> 8) & 255 or 1, pid & 255, k)
 
 
+HALF_CLOSE = "half-close"        # a reply value: the device ends its sending direction and keeps reading
+
+
 class FakeDevice:
     """Scripted device: logs every received chunk per connection; answers from a per-connection script or by a policy."""
     def __init__(self, ip, port):
@@ -348,6 +351,9 @@ class FakeDevice:
                 elif self.policy: reply = self.policy(n, d)
                 else: reply = b"\x01"
                 if reply is None: continue
+                if reply is HALF_CLOSE:
+                    if w.can_write_eof(): w.write_eof()
+                    continue
                 if reply == b"":            # an empty reply = the device closes the stream
                     break
                 w.write(reply); await w.drain()
@@ -379,7 +385,7 @@ def free_udp_ports(n):
     return ps
 
 
-async def feed_bridge(n_ports, events, raising=(), show=None, sentinel=None, serial=False):
+async def feed_bridge(n_ports, events, raising=(), show=None, sentinel=None, serial=False, restarts=0):
     """events: [(port index, datagram bytes)] sent in order from one socket in paced bursts, then one sentinel per port as
     delivery barrier.  Returns (callback log [rendered device], loop-exception-handler calls, warnings).
     `raising`: indices of callback invocations (global count) on which the user's callback raises."""
@@ -400,6 +406,10 @@ async def feed_bridge(n_ports, events, raising=(), show=None, sentinel=None, ser
         warnings.simplefilter("always")
         await bridge.start()
         try:
+            for _ in range(restarts):               # the same bridge object stopped and started again before anything is sent
+                await bridge.stop()
+                for _ in range(5): await asyncio.sleep(0.001)
+                await bridge.start()
             for i, (p, d) in enumerate(events):
                 tx.sendto(d, ("127.0.0.1", ports[p]))
                 if serial:                      # nothing else in flight: let the loop take this datagram before the next is sent
